@@ -113,3 +113,56 @@ pub fn real_idls() -> Vec<(String, Vec<IdlDefinition>)> {
 pub fn real_idls() -> Vec<(String, Vec<IdlDefinition>)> {
     vec![]
 }
+
+/// Variant name of a real `IdlTypeDef` — an EXHAUSTIVE match on the real enum: a variant added to
+/// `star_frame_idl` breaks the harness build until the `variant` family covers it.
+pub fn td_variant_name(t: &IdlTypeDef) -> &'static str {
+    match t {
+        IdlTypeDef::Defined(_) => "Defined",
+        IdlTypeDef::Generic(_) => "Generic",
+        IdlTypeDef::Bool => "Bool",
+        IdlTypeDef::U8 => "U8",
+        IdlTypeDef::I8 => "I8",
+        IdlTypeDef::U16 => "U16",
+        IdlTypeDef::I16 => "I16",
+        IdlTypeDef::U32 => "U32",
+        IdlTypeDef::I32 => "I32",
+        IdlTypeDef::F32 => "F32",
+        IdlTypeDef::U64 => "U64",
+        IdlTypeDef::I64 => "I64",
+        IdlTypeDef::F64 => "F64",
+        IdlTypeDef::U128 => "U128",
+        IdlTypeDef::I128 => "I128",
+        IdlTypeDef::String => "String",
+        IdlTypeDef::Pubkey => "Pubkey",
+        IdlTypeDef::FixedPoint { .. } => "FixedPoint",
+        IdlTypeDef::Option { .. } => "Option",
+        IdlTypeDef::RemainingBytes => "RemainingBytes",
+        IdlTypeDef::List { .. } => "List",
+        IdlTypeDef::UnsizedList { .. } => "UnsizedList",
+        IdlTypeDef::Set { .. } => "Set",
+        IdlTypeDef::Map { .. } => "Map",
+        IdlTypeDef::Array(..) => "Array",
+        IdlTypeDef::Struct(_) => "Struct",
+        IdlTypeDef::Enum { .. } => "Enum",
+    }
+}
+
+pub fn sd_variant_name(s: &IdlAccountSetDef) -> &'static str {
+    match s {
+        IdlAccountSetDef::Defined(_) => "Defined",
+        IdlAccountSetDef::Single(_) => "Single",
+        IdlAccountSetDef::Struct(_) => "Struct",
+        IdlAccountSetDef::Many { .. } => "Many",
+        IdlAccountSetDef::Or(_) => "Or",
+    }
+}
+
+/// Every variant name the two functions above can return, with "holds references / nested definitions".
+pub const TD_VARIANTS: [(&str, bool); 27] = [
+    ("Defined", true), ("Generic", false), ("Bool", false), ("U8", false), ("I8", false), ("U16", false), ("I16", false),
+    ("U32", false), ("I32", false), ("F32", false), ("U64", false), ("I64", false), ("F64", false), ("U128", false),
+    ("I128", false), ("String", false), ("Pubkey", false), ("FixedPoint", true), ("Option", true), ("RemainingBytes", false),
+    ("List", true), ("UnsizedList", true), ("Set", true), ("Map", true), ("Array", true), ("Struct", true), ("Enum", true),
+];
+pub const SD_VARIANTS: [(&str, bool); 5] = [("Defined", true), ("Single", true), ("Struct", true), ("Many", true), ("Or", true)];
